@@ -98,7 +98,7 @@ State0(files, lf) ==
       pcS |-> [pc |-> "off", by |-> <<>>, rtp |-> <<>>, todo |-> {}, reason |-> ""],  \* shutdown()
       pcW |-> [pc |-> "idle", p |-> <<>>, err |-> ""],           \* events watcher
       srv |-> [inv |-> 0, stream |-> FALSE, sent |-> FALSE, sowner |-> 0, cached |-> NoCached, phase |-> "idle",
-               done |-> "empty", initOut |-> "unset", resc |-> {}],
+               done |-> "empty", doneId |-> 0, initOut |-> "unset", resc |-> {}],
       iv |-> <<>>,                     \* invocation ordinal -> Server.Invoke record
       busy |-> [c \in Callers |-> 0],  \* caller -> its invocation in progress
       ninv |-> 0,
@@ -278,7 +278,7 @@ InvokeReturnDo(s) ==
 
 \* pl: label of the event payload (k = the bytes of invocation k, 0 = empty); an event larger than the
 \* limit reaches the runtime cut at the limit (label -k)
-NewInv(c, pl) == [c |-> c, pl |-> pl, id |-> 0, m |-> "start", r |-> "off", f |-> "off", i |-> "off",
+NewInv(c, pl) == [c |-> c, pl |-> pl, id |-> 0, t0 |-> 0, m |-> "start", r |-> "off", f |-> "off", i |-> "off",
                   out |-> "", relRes |-> "", body |-> NoBody, derr |-> NoBody]
 
 WithInv(s, k, rec) == [s EXCEPT !.iv = [x \in DOMAIN s.iv \cup {k} |-> IF x = k THEN rec ELSE s.iv[x]]]
@@ -341,24 +341,30 @@ FioFastInvokeDo(s, k) ==
 FiiStartEn(s, k) == s.iv[k].i = "start" /\ s.pcV.pc = "off"
 FiiStartDo(s, k) == [s EXCEPT !.pcV = [pc |-> "v0", k |-> s.iv[k].id, src |-> k, err |-> ""], !.iv[k].i = "wait"]
 
-\* invoke failed (not by a reset): default error to the invocation that is CURRENT AT SEND TIME;
+\* invoke failed (not by a reset): default error to the invocation this call dispatched (tree after the fix
+\* of F-C02-1; the tree as found addressed whichever invocation was current and panicked when there was none);
 \* the cached init error response wins over the default body
 FiiDefaultErrorEn(s, k) == s.iv[k].i = "deferr"
 FiiDefaultErrorDo(s, k) ==
     LET body == IF s.srv.cached # NoCached THEN s.srv.cached ELSE s.iv[k].derr IN
-    IF s.srv.inv = 0 \/ ~s.srv.stream THEN [s EXCEPT !.crashed = TRUE, !.iv[k].i = "off"]     \* log.Panicf
+    IF s.srv.inv = 0 \/ s.srv.inv # s.iv[k].id THEN [s EXCEPT !.iv[k].i = "sendfail"]     \* that invocation is gone
     ELSE IF s.srv.sent THEN [s EXCEPT !.iv[k].i = "sendfail"]
+    ELSE IF ~s.srv.stream THEN [s EXCEPT !.crashed = TRUE, !.iv[k].i = "off"]              \* log.Panicf
     ELSE [s EXCEPT !.srv.sent = TRUE, !.iv[s.srv.sowner].body = body, !.iv[k].i = "sendfail"]
 
 \* completion message into the buffered InvokeDoneChan (blocks while it is full)
+\* (tagged with the id of the invocation it completes: tree after the fix of F-C08-4)
 FiiSendDoneEn(s, k) == s.iv[k].i \in {"sendok", "sendfail"} /\ s.srv.done = "empty"
-FiiSendDoneDo(s, k) == [s EXCEPT !.srv.done = IF s.iv[k].i = "sendok" THEN "ok" ELSE "fail", !.iv[k].i = "off"]
+FiiSendDoneDo(s, k) == [s EXCEPT !.srv.done = IF s.iv[k].i = "sendok" THEN "ok" ELSE "fail", !.srv.doneId = s.iv[k].id,
+                                 !.iv[k].i = "off"]
 
 \* AwaitRelease of invocation k: a completion message (of whichever invocation) or the end of
 \* its reservation
 RelAwaitEn(s, k) == s.iv[k].r = "await" /\ (s.srv.done # "empty" \/ k \in s.srv.resc)
 RelAwaitDo(s, k) ==
-    IF s.srv.done = "ok"
+    IF s.srv.done # "empty" /\ s.srv.doneId # s.srv.inv
+    THEN [s EXCEPT !.srv.done = "empty"]        \* completion of an earlier invocation: dropped, keep waiting
+    ELSE IF s.srv.done = "ok"
     THEN [Release([s EXCEPT !.srv.done = "empty", !.srv.phase = "idle"]) EXCEPT !.iv[k].r = "sendok"]
     ELSE IF s.srv.done = "fail"
     THEN [s EXCEPT !.srv.done = "empty", !.srv.phase = "idle", !.iv[k].r = "rst",
@@ -417,7 +423,6 @@ ResetFinishDo(s, x) ==
               !.pcS = [pc |-> "off", by |-> <<>>, rtp |-> <<>>, todo |-> {}, reason |-> ""]]
 
 \* reinitialize (rapidContext.Clear): appctx keys, renderer, initDone, registration service, flows
-\* (gate.Clear keeps the expected count)
 ResetClearEn(s, x) == s.rs[x].pc = "r3"
 ResetClearDo(s, x) ==
     [s EXCEPT !.firstFatal = "none", !.renderer = "none", !.initDone = FALSE,
@@ -431,7 +436,7 @@ ResetClearDo(s, x) ==
 \* whichever Reset call is waiting
 ResetServerClearEn(s, x) == s.rs[x].pc = "r4"
 ResetServerClearDo(s, x) ==
-    [Release([s EXCEPT !.srv.done = "empty", !.srv.phase = "idle"]) EXCEPT
+    [Release([s EXCEPT !.srv.done = "empty", !.srv.phase = "idle", !.srv.cached = NoCached]) EXCEPT
         !.rdone = @ + 1, !.rs = [y \in DOMAIN s.rs \ {x} |-> s.rs[y]]]
 
 ----------------------------------------------------------------------------
